@@ -51,16 +51,35 @@ class Evaluator:
             n = f.strip(n["c"][0], casts=False)
         if n["k"] == "ArraySubscriptExpr":
             bn = f.node(n["base"])
+            bs = f.strip(bn, casts=True)
+            if bs is not None and bs["k"] in ("CallExpr", "CXXMemberCallExpr"):
+                # the base is a pointer value returned by a call (getBuffer()[i])
+                pv = self.ev(bn)
+                idx = self.ev(f.node(n["idx"]))
+                if isinstance(pv, tuple):
+                    return "%s[%d]" % (pv[1], pv[2] + idx)
+                raise Unknown("subscript of %s" % render(f, bn))
             try:
                 base = self.lkey(bn)
             except Unknown:
                 base = render(f, bn)
             idx = self.ev(f.node(n["idx"]))
+            if getattr(self, "on_subscript", None):
+                self.on_subscript(base, idx, n)
+            if base in self.env and isinstance(self.env[base], tuple):
+                tp = self.env[base]
+                return "%s[%d]" % (tp[1], tp[2] + idx)
             if getattr(self, "heap_mode", False) and base in self.env and isinstance(self.env[base], int) and not base.endswith("]"):
                 # pointer variable used as an array: key by the pointer's value
                 return "@%d[%d]" % (self.env[base], idx)
             return "%s[%d]" % (base, idx)
         if n["k"] == "UnaryOperator" and n.get("op") == "*":
+            try:
+                pv = self.ev(n["c"][0])
+            except Unknown:
+                pv = None
+            if isinstance(pv, tuple):
+                return "%s[%d]" % (pv[1], pv[2])
             return "*" + render(f, n["c"][0])
         if n["k"] == "MemberExpr" and n.get("base") is not None:
             bn = f.node(n["base"])
@@ -105,7 +124,10 @@ class Evaluator:
                     return self.ev(inner)
                 key = self.lkey(n["c"][0])
                 if key in self.env:
-                    return self.env[key]
+                    v = self.env[key]
+                    if isinstance(v, int) and inner is not None and inner["k"] == "UnaryOperator" and inner.get("op") == "*":
+                        return self.wrap(v, n.get("ct"))     # *(const unsigned char*)p reads the byte as unsigned
+                    return v
                 raise Unknown(key)
             if ck in ("IntegralCast", "NoOp", "IntegralToBoolean", "BooleanToSignedIntegral"):
                 v = self.ev(n["c"][0])
@@ -151,7 +173,8 @@ class Evaluator:
             if op == "*":
                 key = self.lkey(n)
                 if key in self.env:
-                    return self.env[key]
+                    v = self.env[key]
+                    return self.wrap(v, n.get("ct")) if isinstance(v, int) else v
                 raise Unknown(key)
             if op in ("++", "--"):
                 key = self.lkey(n["c"][0])
@@ -201,7 +224,15 @@ class Evaluator:
                 self.ev(l)
                 return self.ev(r)
             if op == "=":
-                v = self.ev(r)
+                try:
+                    v = self.ev(r)
+                except Unknown:
+                    # the target no longer holds its old value
+                    try:
+                        self.env.pop(self.lkey(l), None)
+                    except Unknown:
+                        pass
+                    raise
                 key = self.lkey(l)
                 self.env[key] = v
                 self.stores.append((key, v))
@@ -210,7 +241,11 @@ class Evaluator:
                 key = self.lkey(l)
                 if key not in self.env:
                     raise Unknown(key)
-                v = self._bin(op[:-1], self.env[key], self.ev(r), n.get("ct"))
+                try:
+                    v = self._bin(op[:-1], self.env[key], self.ev(r), n.get("ct"))
+                except Unknown:
+                    self.env.pop(key, None)
+                    raise
                 self.env[key] = v
                 self.stores.append((key, v))
                 return v
@@ -268,6 +303,7 @@ class Evaluator:
                 sub._depth = getattr(self, "_depth", 0) + 1
                 sub.pass_object = getattr(self, "pass_object", False)
                 sub.heap_mode = getattr(self, "heap_mode", False)
+                sub.on_subscript = getattr(self, "on_subscript", None)
                 sub.run_blocks(g.entry, max_steps=500)
                 for sk, sv in sub.stores:
                     if sk.startswith("@") or "." in sk or "[" in sk or (sk in self.env and sk not in pnames):
@@ -279,7 +315,7 @@ class Evaluator:
                     self.wraps.extend(sub.wraps)
                 self.trace.extend(sub.trace)
                 r = getattr(sub, "ret", None)
-                if r is None or isinstance(r, tuple):
+                if r is None or (isinstance(r, tuple) and r[0] != "ptr"):
                     raise Unknown("inlined %s: %s" % (nm, r))
                 return r
             self.trace.append((nm, None, n))
@@ -398,9 +434,21 @@ class Evaluator:
             if blk.get("cond") is not None and len(succ) == 2:
                 c = blk["cond"]
                 v = vals.get(c)
+                cn_ = f.nodes[c]
+                while v is None:
+                    if cn_["k"] in TRANSPARENT and len(cn_.get("c", [])) == 1:
+                        # the terminator is a wrapper (parentheses) of an element that was already folded: do not fold it twice
+                        cn_ = cn_["c"][0]
+                    elif cn_["k"] == "BinaryOperator" and cn_.get("op") in ("&&", "||"):
+                        # clang gives the statement's whole condition; the left operands were decided in predecessor
+                        # blocks (short-circuit edges), this block decides the right-most operand
+                        cn_ = f.node(cn_["rhs"])
+                    else:
+                        break
+                    v = vals.get(cn_["id"])
                 if v is None:
                     try:
-                        v = self.ev(f.nodes[c])
+                        v = self.ev(cn_)
                     except Unknown as u:
                         v = u
                 if isinstance(v, Unknown):
